@@ -385,7 +385,39 @@ def chk_sequence(c):
                 k, s['expr'], [t['expr'] for t in c['specs'][:k]], e))
 
 
-CHECKS = {'assemble': chk_assemble, 'vector_blocks': chk_vector_blocks, 'sequence': chk_sequence}
+def chk_boundary_seq(c):
+    """boundary integrals on several sides in sequence with ONE shared args dict (the assembler writes the side's tangent selector into it):
+    every side's load vector / mass matrix equals the line integral over that side, whatever was assembled before.  Reference: the same Gauss
+    rule applied to B_i(t) |gamma'(t)| (and B_i B_j |gamma'|) with gamma = geo.boundary(side), independent of the generated code"""
+    from pyiga import assemble, bspline, geometry
+    kvs = tuple(_kv(s_) for s_ in c['kvs'])
+    geo = {'annulus': geometry.quarter_annulus, 'bannulus': geometry.bspline_quarter_annulus}[c['geo']]()
+    args = {'geo': geo}
+    for side in c['order']:
+        ax, sd = bspline._parse_bdspec(side, 2)
+        kvt = kvs[1 - ax]                                  # knot vector along the side
+        nq = max(kv.p for kv in kvs) + 1                   # the assembler's rule: max degree + 1 Gauss nodes per span (the integrand is not polynomial)
+        gx, gw = np.polynomial.legendre.leggauss(nq)
+        mesh = np.unique(kvt.kv)
+        nodes = np.concatenate([(a + b) / 2 + (b - a) / 2 * gx for a, b in zip(mesh[:-1], mesh[1:])])
+        wts = np.concatenate([(b - a) / 2 * gw for a, b in zip(mesh[:-1], mesh[1:])])
+        bd = geo.boundary(side)
+        speed = np.linalg.norm(np.asarray(bd.grid_jacobian((nodes,))).reshape(len(nodes), -1), axis=1)
+        Bm = bspline.collocation(kvt, nodes).toarray()
+        ref_v = Bm.T @ (wts * speed)
+        got_v = np.asarray(assemble.assemble('v * ds', kvs, args=args, boundary=side)).ravel()
+        assert got_v.shape == ref_v.shape, "'v * ds' on side %s: shape %r vs %r" % (side, got_v.shape, ref_v.shape)
+        err = np.max(np.abs(got_v - ref_v))
+        assert err <= 1e-8 * max(1.0, np.max(np.abs(ref_v))), "'v * ds' on side %s, assembled after the sides %r with the same args dict: max deviation %g (length %g vs %g)" % (
+            side, c['order'][:c['order'].index(side)], err, got_v.sum(), ref_v.sum())
+        ref_m = Bm.T @ (Bm * (wts * speed)[:, None])
+        got_m = assemble.assemble('u * v * ds', kvs, args=args, boundary=side).toarray()
+        errm = np.max(np.abs(got_m - ref_m))
+        assert got_m.shape == ref_m.shape and errm <= 1e-8 * max(1.0, np.max(np.abs(ref_m))), "'u * v * ds' on side %s after %r: max deviation %g" % (
+            side, c['order'][:c['order'].index(side)], errm)
+
+
+CHECKS = {'assemble': chk_assemble, 'vector_blocks': chk_vector_blocks, 'sequence': chk_sequence, 'boundary_seq': chk_boundary_seq}
 
 
 def _usable(spec):
@@ -478,6 +510,8 @@ def generate(tier, rng):
         yield 'vector_blocks', case
     for g in _sequence_groups(tier):
         yield 'sequence', {'specs': g}
+    for k, order in enumerate((['left', 'bottom', 'right', 'top'], ['top', 'right', 'bottom', 'left'], ['bottom', 'top', 'left', 'right'])):
+        yield 'boundary_seq', {'kvs': [[2, [0.0, 0.3, 0.55, 1.0], [1, 2]], [3 - k % 2, [0.0, 0.5, 1.0], [1]]], 'geo': ['annulus', 'bannulus'][k % 2], 'order': order}
     # two-space (Petrov-Galerkin) forms: degree gaps in both directions on the non-affine map (the node count is max degree over BOTH spaces + 1)
     brs = [[0.0, 0.5, 1.0], [0.0, 0.3, 0.55, 1.0]]
     for s in specs(tier):
